@@ -582,6 +582,8 @@ type stageExec struct {
 	acked     map[string][][2]int64 // name|md5 -> acknowledged ranges
 	oldLogged map[string]int64      // name|md5|renamed -> time of a record written by `oldlog`
 	prevOf    map[string]string     // name|hashtoken -> predecessor announced last for that version
+	arrivals  map[string][]arrival // name -> versions whose parts arrived, with the number of log records of the name then
+	failedAt  map[string]int // name -> op number of a `status` answer "failed" with only queries since
 	lastCrash, lastRecover, lastSettle int // op numbers of the last cut/crash, recover, settle
 	gaveUp    bool                  // cleanwaiting ran: the order may have been given up for cycles
 	crashes   int                   // crash / cut operations in this case
@@ -594,7 +596,7 @@ func newStageExec() *stageExec {
 	return &stageExec{rig: rig, err: err, md5Of: map[string]string{}, tokOf: map[string]string{},
 		names: map[string]bool{}, targets: map[string]bool{}, handles: map[string]*pendingRecv{},
 		kinds: map[string]bool{}, delivered: map[string][]byte{}, versions: map[string]map[string]bool{}, corrupted: map[string]bool{},
-		acked: map[string][][2]int64{}, oldLogged: map[string]int64{}, prevOf: map[string]string{}, confirmed: map[string]bool{}, consumed: map[string]bool{}}
+		acked: map[string][][2]int64{}, oldLogged: map[string]int64{}, arrivals: map[string][]arrival{}, failedAt: map[string]int{}, prevOf: map[string]string{}, confirmed: map[string]bool{}, consumed: map[string]bool{}}
 }
 
 func parseBodyTok(s string) ([]byte, bool) {
@@ -713,6 +715,14 @@ func (e *stageExec) partial(n, renamed, prev, size, hash, beg, end string) (*sts
 	}
 	e.versions[name][tok] = true
 	e.prevOf[name+"|"+tok] = unesc(prev)
+	// when a part of a version arrives, remember how many receive-log records of the name exist (oracleOnce)
+	nrec := 0
+	for _, l := range e.readLog() {
+		if l.name == name {
+			nrec++
+		}
+	}
+	e.arrivals[name] = append(e.arrivals[name], arrival{tok, nrec})
 	e.emu.Unlock()
 	return &sts.Partial{Name: name, Renamed: unesc(renamed), Prev: unesc(prev), Size: sz,
 		Hash: e.realHash(tok), Source: "verif", Time: marshal.NanoTime{Time: time.Unix(e.rig.base, 0)},
@@ -725,6 +735,11 @@ func (e *stageExec) Do(op []string) string {
 	}
 	e.nOps++
 	e.kinds[op[0]] = true
+	switch op[0] {
+	case "status", "received", "receivedn", "scan", "observe", "mem":
+	default:
+		e.failedAt = map[string]int{} // anything but a query may legitimately change what the receiver holds
+	}
 	switch op[0] {
 	case "cut", "crash":
 		e.lastCrash = e.nOps
@@ -1159,6 +1174,18 @@ func (e *stageExec) do1(op []string) string {
 		code := r.st.GetFileStatus(name, sent)
 		if code == sts.ConfirmPassed || code == sts.ConfirmWaiting {
 			e.confirmed[name] = true
+			// C02: "a failed answer never releases the file": a file reported as failed stays failed until it is
+			// sent again; nothing but queries happened since that answer
+			if at, ok := e.failedAt[name]; ok {
+				e.fails = append(e.fails, fmt.Sprintf("status-flip: %s was reported as failed (op %d) and is now reported as %d although only queries happened in between", name, at, code))
+			}
+		}
+		if code == sts.ConfirmFailed {
+			if _, ok := e.failedAt[name]; !ok {
+				e.failedAt[name] = e.nOps
+			}
+		} else {
+			delete(e.failedAt, name)
 		}
 		return strconv.Itoa(code)
 	case len(op) == 1 && op[0] == "scan":
@@ -1204,6 +1231,11 @@ func bodyOrDash(b []byte) string {
 		return "-"
 	}
 	return bodyTok(b)
+}
+
+type arrival struct {
+	tok  string
+	nrec int
 }
 
 type logRec struct {
@@ -1434,11 +1466,24 @@ func (e *stageExec) oracleOnce() {
 	// that name in between (a version that came back after a different one is a new delivery)
 	last := map[string]string{}
 	rep := map[string]int{}
+	idx := map[string]int{} // records of the name seen so far
 	for _, l := range e.readLog() {
 		if last[l.name] == l.hash {
-			rep[l.name]++
+			// ... and without a part of another version of that name having ARRIVED in between (it may have been
+			// superseded or have failed validation and so never reached the log)
+			other := false
+			tok := e.tokOfHash(l.hash)
+			for _, a := range e.arrivals[l.name] {
+				if a.tok != tok && a.nrec == idx[l.name] {
+					other = true
+				}
+			}
+			if !other {
+				rep[l.name]++
+			}
 		}
 		last[l.name] = l.hash
+		idx[l.name]++
 	}
 	for name, c := range rep {
 		if c > e.crashes {
